@@ -1,5 +1,6 @@
 import EmsModel.Core.DepthProto
 import EmsModel.Props.C12
+import EmsModel.Gen.DepthSrc
 /-! Line-protocol driver for C12 (ocean floor).
 `floor <kb:0|1> <DS> <coords|-> <ns|-> [<order>]` → `OK <DS'>` | `ERR`
       kb=1: the code as written (`extract_vars(..., keep_bounds=True)`); kb=0: no foreign bounds
@@ -8,7 +9,11 @@ import EmsModel.Props.C12
 `hyp <kb:0|1> <DS> <coords|-> <ns|->` → `1` iff the hypotheses of the dataset-level theorems (`Ems.C12.Setting`,
       decided by `Ems.C12.settingB`, sound by `settingB_sound`) hold for this input
 `fidx <column of v/n>` → `<floorIndex>`            (`_find_ocean_floor_indexes` on one column)
-`propcheck <column of v/n>` → `1` iff floorIndex = index of the last `v` (0 if none) -/
+`propcheck <column of v/n>` → `1` iff floorIndex = index of the last `v` (0 if none)
+`srcfidx <column 1,n,-3/2>` → `<index>` | `ERR`   the term GENERATED from the source of `_find_ocean_floor_indexes`
+      (`Gen.depthFindFloorIndexes`) evaluated on one column of numbers / NaN (`n`)
+`srcop cumsum|argmax|indicator <column>` → values | index | `ERR`   one construct of the expression language by itself
+      (`x.cumsum(dim)`, `x.argmax(dim)`, `x * 0 + 1` with xarray's semantics) -/
 open Ems Ems.Proto Ems.Depth Ems.Depth.Proto
 
 def parseCol? (s : String) : Option (List (Option Unit)) :=
@@ -44,6 +49,27 @@ def step (line : String) : String :=
     match parseCol? col with
     | some c => if floorIndex c == lastSomeIdx c then "1" else "0"
     | none => "BAD"
+  | ["srcfidx", col] =>
+    match parseVals? col with
+    | some c =>
+      match Ems.Gen.depthFindFloorIndexes.eval c with
+      | some (.idx n) => toString n
+      | some (.col l) => "COL " ++ showNames (l.map showVal)
+      | none => "ERR"
+    | none => "BAD"
+  | ["srcop", op, col] =>
+    let e? : Option Ems.DepthSrc.FExpr :=
+      if op == "cumsum" then some (.cumsum .input .depthParam)
+      else if op == "argmax" then some (.argmax .input .depthParam)
+      else if op == "indicator" then some (.addConst (.mulConst .input 0) 1)
+      else none
+    match e?, parseVals? col with
+    | some e, some c =>
+      match e.eval c with
+      | some (.idx n) => toString n
+      | some (.col l) => showNames (l.map showVal)
+      | none => "ERR"
+    | _, _ => "BAD"
   | _ => "BAD"
 
 def main : IO Unit := loop step
